@@ -617,14 +617,15 @@ class SimCluster:
         frame = conn.arriving.popleft()
         if conn.server_closed or not conn.node.up:
             return
-        conn.inbox.append(frame)
+        conn.inbox.append((frame, self.now()))
         if not conn.busy:
             self._next(conn)
 
     def _next(self, conn):
         inbox = conn.inbox
         while inbox and not conn.busy and not conn.blackholed and not conn.server_closed:
-            self._handle(conn, inbox.popleft())
+            frame, arrived = inbox.popleft()
+            self._handle(conn, frame, arrived)
 
     def _finish(self, rq):
         """The broker is done with ``rq``: its connection may handle the next request."""
@@ -638,7 +639,7 @@ class SimCluster:
     # ======================================================================================
     # request pipeline
     # ======================================================================================
-    def _handle(self, conn, frame):
+    def _handle(self, conn, frame, arrived=None):
         api_key, version, corr, client_id, req = decode_request(frame)
         if conn.client_id is None:
             conn.client_id = client_id
@@ -681,6 +682,8 @@ class SimCluster:
                 api=rq.api,
                 version=version,
                 fields=self._request_fields(rq),
+                # when the bytes reached the broker (a request can wait behind a parked one)
+                arrived=int((self.now() if arrived is None else arrived) * 1000 + 0.5),
             )
         faults = self.faults
         if faults.active:
